@@ -48,7 +48,7 @@ UnaryOf(f) ==
            {"letA", "letAB", "scopeA", "capA", "subA", "bapply", "letF", "star"}
       [] f = "fmt" -> {"fmt1", "fmt2", "fmts", "cap", "opt"}
       [] f = "blocks" -> {"bapply", "letFcall"}
-      [] f = "scopes" -> {"letA", "letB", "scopeA", "subA", "capA"}
+      [] f = "scopes" -> {"letA", "letB", "scopeA", "subA", "capA", "sub?", "fmt1"}
       [] f = "refeed" -> {"let1", "fmt1", "opt", "star", "sub?"}
 
 BinaryOf(f) ==
